@@ -135,6 +135,8 @@ def rules(ctx):
     flownet.need(ctx, "R1.trip-lower-bound", edges, "trip", "lower_bound", [call(REQ), call(MFC), "param:2"],
                  "trip edges must carry min(required vehicles, applicable formation limit of that trip)")
     required_vehicles_pairing(ctx)
+    from .C14 import every_type_is_solved
+    every_type_is_solved(ctx, "R1")     # the start solution that covers the demand exists for every vehicle type
     formation_getters(ctx)
     limit_combination(ctx)
     from .C17 import getters as _getters
